@@ -9,7 +9,15 @@ from harness.engine.core import Ctx
 
 def main():
     bad = 0
-    mods = sorted(glob.glob(os.path.join(T.SPECS, "*", "*.tla")))
+    # only the specification directories of registered checks (others may be under construction)
+    CHECKS = {}
+
+    def check(pid, modules, *a):
+        CHECKS[pid] = modules
+
+    exec(open(os.path.join(T.VERIF, "tools", "manifest_entries.py")).read(), {"check": check, "PENDING": {}})
+    dirs = sorted({m for ms in CHECKS.values() for m in ms if os.path.isdir(os.path.join(T.SPECS, m))})
+    mods = [f for d in dirs for f in sorted(glob.glob(os.path.join(T.SPECS, d, "*.tla")))]
     for m in mods:
         d, f = os.path.split(m)
         if os.path.basename(d) == "common":
